@@ -227,6 +227,11 @@ def undefined_cases(ctx, dec, B, D):
         ('in-fixed-replication', [1001, 102002, 12001, 2001], 2, 63255),
         ('in-fixed-replication-seq', [1001, 102002, 12001, 2001], 3, 363255),
         ('in-delayed-replication', [101000, 31001, 12001, 1001], 2, 48001),
+        # inside a 221YYY range: a defined element of class 12 would merely have no data there, an
+        # element that is in no table must still be reported
+        ('under-221-class-without-data', [1001, 221001, 12001, 1002], 2, 12250),
+        ('under-221-class-with-data', [1001, 221002, 5001, 12001, 1002], 2, 5250),
+        ('under-221-last-of-range', [1001, 221002, 12001, 12004, 1002], 3, 20250),
     ]
     reps = 6 if ctx.quick else 40
     n = 0
